@@ -510,7 +510,15 @@ def evaluate_z3_mod(
     if not z3.is_mod(expr):
         return Nothing
 
-    return Some(construct_result(lambda args: args[0] % args[1], children_results))
+    divisor = expr.children()[1]
+    if not z3.is_int_value(divisor) or divisor.as_long() == 0:
+        # x mod 0 is uninterpreted in SMT-LIB; a non-literal divisor might be 0.
+        return Nothing
+
+    # SMT-LIB: the remainder is never negative.
+    return Some(
+        construct_result(lambda args: args[0] % abs(args[1]), children_results)
+    )
 
 
 def evaluate_z3_pow(
